@@ -5,7 +5,7 @@ from checklib import sh, VERIF
 MODULE = "Feox.Props.C18"
 THEOREMS = ['Feox.C18.lock_order_acyclic', 'Feox.C18.no_lock_cycle', 'Feox.C18.call_terminates_alone',
             'Feox.C18.step_returns_or_progresses', 'Feox.C18.retirement_completes', 'Feox.C18.reader_never_blocked',
-            'Feox.C18.retry_bounds', 'Feox.C18.final_flush_terminates', 'Feox.C18.stale_read_loop_bounded', 'Feox.Conc.Loops.bounded', 'Feox.Conc.Loops.unguarded_arm_runs_forever', 'Feox.Conc.solo_progress', 'Feox.Conc.solo_terminates']
+            'Feox.C18.retry_bounds', 'Feox.C18.final_flush_terminates', 'Feox.C18.stale_read_loop_bounded', 'Feox.Conc.Loops.bounded', 'Feox.Conc.Loops.unguarded_arm_runs_forever', 'Feox.Conc.solo_progress', 'Feox.Conc.solo_terminates', 'Feox.C18.reentrant_read_deadlocks']
 
 ASSUME = [
     "bounded time on a real scheduler (thread fairness, channel wake-ups, kernel I/O latency) is runtime behaviour the model cannot exhibit: what is proved is deadlock- and livelock-freedom of the modelled protocols",
